@@ -56,7 +56,7 @@ func TestC22(t *testing.T) {
 		var c *caseT
 		pct := 4
 		if ev.Thorough() {
-			pct = 12
+			pct = 8
 		}
 		var mk *manyKeyT
 		if gen.Chance(t, "manykey", pct) {
